@@ -450,9 +450,11 @@ type connection struct {
 	key      key // client->server
 	c2s, s2c halfconnection
 	mu       sync.Mutex
+	gen      uint64 // incremented every time the object is handed out again
 }
 
 func (c *connection) reset(k key, s Stream, ts time.Time) {
+	c.gen++
 	c.key = k
 	base := halfconnection{
 		nextSeq:  invalidSequence,
@@ -1302,9 +1304,12 @@ func (a *Assembler) FlushWithOptions(opt FlushOptions) (flushed, closed int) {
 		if conn.s2c.closed && conn.c2s.closed && conn.s2c.lastSeen.Before(opt.TC) && conn.c2s.lastSeen.Before(opt.TC) {
 			remove = true
 		}
+		// Once the lock is released the object can be handed out again for a new
+		// connection: remember which incarnation was found closed.
+		gen := conn.gen
 		conn.mu.Unlock()
 		if remove {
-			a.connPool.remove(conn)
+			a.connPool.removeGeneration(conn, gen)
 		}
 	}
 	return flushes, closes
